@@ -182,7 +182,52 @@ def nil_round_cases():
         yield ("nil-only-round:min%s:%d" % (mn, len(body)), {"main.xsd": NILROUND % mn}, '<f:root xmlns:f="urn:fam"%s>%s</f:root>' % (X, body), None, None)
 
 
+UNION_XSD = ('<xs:schema xmlns:xs="http://www.w3.org/2001/XMLSchema" xmlns:t="urn:fam" targetNamespace="urn:fam" elementFormDefault="qualified">'
+             '<xs:simpleType name="DorDT"><xs:union memberTypes="xs:date xs:dateTime"/></xs:simpleType>'
+             '<xs:simpleType name="DTorD"><xs:union memberTypes="xs:dateTime xs:date"/></xs:simpleType>'
+             '<xs:simpleType name="IorB"><xs:union memberTypes="xs:int xs:boolean"/></xs:simpleType>'
+             '<xs:simpleType name="BorI"><xs:union memberTypes="xs:boolean xs:int"/></xs:simpleType>'
+             '<xs:simpleType name="IorS"><xs:union><xs:simpleType><xs:restriction base="xs:int"/></xs:simpleType><xs:simpleType><xs:restriction base="xs:string"/></xs:simpleType></xs:union></xs:simpleType>'
+             '<xs:element name="root"><xs:complexType><xs:sequence>'
+             '<xs:element name="a" type="t:DorDT" minOccurs="0" maxOccurs="unbounded"/><xs:element name="b" type="t:DTorD" minOccurs="0" maxOccurs="unbounded"/>'
+             '<xs:element name="c" type="t:IorB" minOccurs="0" maxOccurs="unbounded"/><xs:element name="d" type="t:BorI" minOccurs="0" maxOccurs="unbounded"/>'
+             '<xs:element name="e" type="t:IorS" minOccurs="0" maxOccurs="unbounded"/></xs:sequence><xs:attribute name="at" type="t:IorB"/></xs:complexType></xs:element></xs:schema>')
+
+# families that concern one property only (label prefix -> properties)
+ONLY = {"union-members": ("C02",)}
+
+
+def union_cases():
+    """values of union types whose python class is a subclass of another member's (datetime is a date, bool is an int), both member orders"""
+    import datetime
+    dt, d = datetime.datetime(2001, 2, 3, 4, 5, 6), datetime.date(2001, 2, 3)
+    for field, vals, texts in (("a", [dt, d], ["2001-02-03T04:05:06", "2001-02-03"]), ("b", [d, dt], ["2001-02-03", "2001-02-03T04:05:06"]),
+                               ("c", [True, 5, False, 0], ["true", "5", "false", "0"]), ("d", [0, False, 7, True], ["0", "false", "7", "true"]),
+                               ("e", [5, "x"], ["5", "x"])):
+        ref = '<f:root xmlns:f="urn:fam">%s</f:root>' % "".join("<f:%s>%s</f:%s>" % (field, t, field) for t in texts)
+        yield ("union-members:" + field, {"main.xsd": UNION_XSD}, ref, {field: vals}, None)
+    yield ("union-members:attribute", {"main.xsd": UNION_XSD}, '<f:root xmlns:f="urn:fam" at="true"/>', {"at": True}, None)
+
+
+GYEAR_XSD = ('<xs:schema xmlns:xs="http://www.w3.org/2001/XMLSchema" xmlns:t="urn:fam" targetNamespace="urn:fam" elementFormDefault="qualified">'
+             '<xs:element name="root"><xs:complexType><xs:sequence><xs:element name="y" type="xs:gYear" minOccurs="0" maxOccurs="unbounded"/>'
+             '<xs:element name="ym" type="xs:gYearMonth" minOccurs="0" maxOccurs="unbounded"/></xs:sequence><xs:attribute name="era" type="xs:gYear"/></xs:complexType></xs:element></xs:schema>')
+
+
+def year_cases():
+    """years of every width and sign (the lexical form has at least four digits, the sign not counted)"""
+    years = [1, 12, 123, 1234, 12345, -1, -12, -123, -999, -1000, -1234, -12345]
+
+    def lex(y):
+        return ("-" if y < 0 else "") + "%04d" % abs(y)
+    ref = '<f:root xmlns:f="urn:fam" era="%s">%s%s</f:root>' % (lex(-44), "".join("<f:y>%s</f:y>" % lex(y) for y in years),
+                                                                  "".join("<f:ym>%s-03</f:ym>" % lex(y) for y in years))
+    yield ("year-widths", {"main.xsd": GYEAR_XSD}, ref, dict(y=[(y, None) for y in years], ym=[(y, 3, None) for y in years], era=(-44, None)), None)
+
+
 def all_cases():
+    yield from union_cases()
+    yield from year_cases()
     yield from redeclared_name_cases()
     yield from xsitype_prefix_cases()
     yield from nil_round_cases()
@@ -223,7 +268,7 @@ def expected_value(value, typed):
         if typed and "__type__" in value:
             out["__type__"] = value["__type__"]
         return out
-    if isinstance(value, list):
+    if isinstance(value, (list, tuple)):
         return [expected_value(x, typed) for x in value]
     return value
 
@@ -321,6 +366,8 @@ def check_case(label, docs, ref_text, value, build, prop):
 
 def run_family(res, prop):
     for label, docs, ref_text, value, build in all_cases():
+        if prop not in ONLY.get(label.split(":")[0], (prop,)):
+            continue
         res.case(key=("multidoc", label, prop), nontrivial=True)
         res.count("family:" + label.split(":")[0])
         for f in check_case(label, docs, ref_text, value, build, prop):
